@@ -6,7 +6,8 @@
            (known: peers put into the routing table before the first event; the routing table is
             not modelled, its answers are the seeds / peer lists written into the events)
    event = 0 q ctag qtag qn local ndists d* nseeds s*     user command; ctag 0 find_node, 1 put_record,
-                                                          2 start_providing, 3 get_record, 4 get_providers;
+                                                          2 start_providing, 3 get_record, 4 get_providers,
+                                                          5 provider refresh (started by the store, id from the counter);
                                                           quorum qtag 0 All, 1 One, 2 N(qn)
          | 1 q qtag qn npeers p*                          put_record_to_peers (peers the routing table knows)
          | 2                                              command without a query
@@ -74,6 +75,7 @@ Definition p_ev (tag : N) : parser ev :=
          | 2 => pret (ECmd q (CStartProviding qr) dists seeds)
          | 3 => pret (ECmd q (CGetRecord qr local) dists seeds)
          | 4 => pret (ECmd q CGetProviders dists seeds)
+         | 5 => pret (ECmd q (CRefresh qr) dists seeds)
          | _ => pfail
          end
   | 1 => let* q := pN in let* qtag := pN in let* qn := pN in let* ps := plist pN in
